@@ -71,6 +71,8 @@ def coqc_file(path, timeout=900):
 
 
 # ---------------------------------------------------------------- Coq literals / case files
+APPROX_TOL = 0.0     # set to 1e-6 by the DTCWT harness (sqrt2 homogeneity rescaling)
+
 def zlit(v):
     v = int(v)
     return str(v) if v >= 0 else '(%d)' % v
@@ -89,7 +91,9 @@ def enc_ten(a):
     assert a.ndim == 4, a.shape
     r = np.rint(a)
     if not np.array_equal(r, a):
-        raise ValueError('non-integer value in exact correspondence data (max dev %g)' % np.abs(r - a).max())
+        # data that passed through the 1/sqrt2 of q2c/c2q has been rescaled by sqrt2^degree by the harness: integer up to rounding
+        if a.size and np.abs(r - a).max() > APPROX_TOL:
+            raise ValueError('non-integer value in exact correspondence data (max dev %g)' % np.abs(r - a).max())
     if np.abs(r).max(initial=0) >= 2**52:
         raise ValueError('magnitude too large for exact float64')
     return list(a.shape) + [int(v) for v in r.ravel()]
